@@ -55,6 +55,7 @@ func init() {
 	reg(&propDef{
 		ID: "C13",
 		Runs: []hrun{
+			{Pkg: walletPkg, Fn: "ZzC13WalletGetTransactions", Tiers: "qt", Reach: []string{"c13w-end", "three-blocks", "with-unmined", "backwards"}, Bound: "Wallet.GetTransactions over 2-3 blocks holding 1-2 incoming payments each and possibly one unconfirmed, whole range (default, backwards, forwards incl. unmined): each transaction once, under its block, each summary with its own hash, bytes and credited output"},
 			{Pkg: wtxmgrPkg, Fn: "ZzC13U1L3", Tiers: "qt", Reach: []string{"c13-end", "range-backwards", "range-unmined-first", "reorg"}, Bound: "U1 chain, 3 events; TxDetails/UniqueTxDetails for every tx and candidate block, RangeTransactions over symbolic begin/end in [-1,105]"},
 			{Pkg: wtxmgrPkg, Fn: "ZzC13U6L3", Tiers: "qt", Reach: []string{"c13-end", "range-backwards"}, Bound: "U6 (credits with a non-credit output between, debit-only spender), 3 events"},
 			{Pkg: wtxmgrPkg, Fn: "ZzC13U8L3", Tiers: "qt", Reach: []string{"c13-end"}, Bound: "U8 (descendant through a non-credit output; conflicting P'), 3 events"},
@@ -123,6 +124,7 @@ func init() {
 			{Pkg: txauthorPkg, Fn: "ZzC07Out252C1", Tiers: "qt", Reach: []string{"c07-end", "with-change"}, Bound: "252 outputs (+change = 253: compact-size boundary), 1 coin"},
 			{Pkg: txauthorPkg, Fn: "ZzC07Out253C1", Tiers: "qt", Reach: []string{"c07-end"}, Bound: "253 outputs, 1 coin"},
 			{Pkg: walletPkg, Fn: "ZzC07WalletSources", Tiers: "qt", Reach: []string{"c07w-end", "insufficient", "several-inputs"}, Bound: "the wallet's real input sources (makeInputSource, constantInputSource) feeding txauthor.NewUnsignedTransaction: three P2WPKH coins with symbolic amounts (largest first), one output with a symbolic amount, fee rate 1000 or 10000 sat/kvB"},
+			{Pkg: walletPkg, Fn: "ZzC07WalletChangeSource", Tiers: "qt", Reach: []string{"c07w-end", "schema-override", "custom-scope"}, Bound: "the wallet's real change source for 4 default scopes + 1 custom scope (witness/taproot) x {default account, imported xpub account with one of 5 schema overrides incl. none, imported-keys account}: handed-out script size == ScriptSize told to the fee estimate == size of the effective internal address type"},
 			{Pkg: txauthorPkg, Fn: "ZzC07Out2C2", Tiers: "t", Reach: []string{"c07-end", "several-inputs"}, Bound: "2 outputs with 5 script-kind rotations, 2 coins"},
 			{Pkg: txauthorPkg, Fn: "ZzC07Out1C2", Tiers: "t", Reach: []string{"c07-end"}, Bound: "1 output of 5 kinds, 2 coins"},
 			{Pkg: txauthorPkg, Fn: "ZzC07Out2C3", Tiers: "t", Reach: []string{"c07-end"}, Bound: "2 outputs, 3 coins"},
@@ -143,6 +145,9 @@ func init() {
 			{Pkg: snaclPkg, Fn: "ZzC17Cipher1", Tiers: "qt", Reach: []string{"c17-end", "tamper-box"}, Bound: "1-byte plaintext"},
 			{Pkg: snaclPkg, Fn: "ZzC17Cipher2", Tiers: "qt", Reach: []string{"c17-end"}, Bound: "2-byte plaintext"},
 			{Pkg: snaclPkg, Fn: "ZzC17Cipher4", Tiers: "t", Reach: []string{"c17-end"}, Bound: "4-byte plaintext"},
+			{Pkg: waddrmgrPkg, Fn: "ZzC17EncryptVsLockB1", Tiers: "qt", Sched: true, Reach: []string{"c17-end", "encrypt-refused", "encrypt-succeeded"}, Bound: "Manager.Encrypt(CKTPrivate, 3 symbolic bytes) concurrent with Manager.Lock, interleavings with at most 1 preemptive switch: refused with a locked error, or a ciphertext the same key decrypts to the original bytes after re-unlocking and the zeroed key does not open"},
+			{Pkg: waddrmgrPkg, Fn: "ZzC17EncryptPublicVsLockB1", Tiers: "qt", Sched: true, Reach: []string{"c17-end", "encrypt-succeeded"}, Bound: "the same with the public crypto key (never locked)"},
+			{Pkg: waddrmgrPkg, Fn: "ZzC17EncryptVsLockB2", Tiers: "t", Sched: true, Reach: []string{"c17-end", "encrypt-refused", "encrypt-succeeded"}, Bound: "the same with at most 2 preemptive switches"},
 			{Pkg: snaclPkg, Fn: "ZzC17ShortNonce", Tiers: "qt", Reach: []string{"c17-end"}, Bound: "random source failing after a symbolic number (<24) of bytes"},
 			{Pkg: snaclPkg, Fn: "ZzC17Params", Tiers: "qt", Reach: []string{"c17-end"}, Bound: "Parameters fully symbolic (salt, digest, N, R, P as 64-bit values); other lengths within 24 below / 8 above and 0..2"},
 			{Pkg: snaclPkg, Fn: "ZzC17Password1", Tiers: "qt", Reach: []string{"c17-end", "near-miss-rejected", "restart-accepts", "digest-near-miss", "salt-changed", "longer"}, Bound: "1-byte symbolic passphrase"},
@@ -170,6 +175,8 @@ func init() {
 			{Pkg: chainPkg, Fn: "ZzC18NeutrinoK3", Tiers: "qt", NoNative: true, Sched: true, Reach: []string{"c18-end", "producer-finished-without-consumer"}, Bound: "the same for the neutrino client (real NeutrinoClient.notificationHandler goroutine)"},
 			{Pkg: chainPkg, Fn: "ZzC18BtcdBurst", Tiers: "qt", NoNative: true, Sched: true, Reach: []string{"c18-end", "more-than-32-pending"}, Bound: "btcd client handler, one schedule (no preemptive switches): send 5, receive 3, send 36 (38 pending), receive 10, send 20, drain: 61 notifications in order"},
 			{Pkg: chainPkg, Fn: "ZzC18NeutrinoBurst", Tiers: "qt", NoNative: true, Sched: true, Reach: []string{"c18-end", "more-than-32-pending"}, Bound: "neutrino client handler, the same burst pattern"},
+			{Pkg: chainPkg, Fn: "ZzC18BtcdLongBurst", Tiers: "qt", NoNative: true, Sched: true, Reach: []string{"c18-end", "more-than-32-pending"}, Bound: "btcd client handler: 2100 notifications sent while the consumer reads nothing, then all drained in order; no preemptive switches"},
+			{Pkg: chainPkg, Fn: "ZzC18NeutrinoLongBurst", Tiers: "qt", NoNative: true, Sched: true, Reach: []string{"c18-end", "more-than-32-pending"}, Bound: "the same for the neutrino client handler"},
 			{Pkg: chainPkg, Fn: "ZzC18BtcdStopBacklog", Tiers: "qt", NoNative: true, Sched: true, Reach: []string{"c18-end", "stop-with-backlog"}, Bound: "btcd client handler: 3 notifications queued, nobody reading, then Stop: the handler ends (its wait group is released, its output channel closed)"},
 			{Pkg: chainPkg, Fn: "ZzC18NeutrinoStopBacklog", Tiers: "qt", NoNative: true, Sched: true, Reach: []string{"c18-end", "stop-with-backlog"}, Bound: "the same for the neutrino client handler"},
 			{Pkg: chainPkg, Fn: "ZzC18K4B1", Tiers: "t", Sched: true, Reach: []string{"c18-end"}, Bound: "4 items, buffer 1"},
@@ -221,6 +228,7 @@ func init() {
 			{Pkg: waddrmgrPkg, Fn: "ZzC03LegacyPurposeSeedL2", Tiers: "qt", Reach: []string{"c03-end", "legacy-rule-differs-from-bip32-at-the-coin-type-key", "privkey-checked"}, Bound: "a third concrete seed whose m/84' private key has a leading zero byte (the legacy rule departs from BIP32 one level higher, at the coin-type key), 2 operations, account 0"},
 			{Pkg: waddrmgrPkg, Fn: "ZzC03AcctsL2", Tiers: "qt", Reach: []string{"c03b-end", "account-created", "imported", "passphrase-changed", "recreated-compared", "privkey-checked", "extended"}, Bound: "scope BIP0084, accounts 0 and a second seeded account created during the history, every history of 2 operations from {next-external(1..2), next-internal, extend-internal, lock, unlock, restart, private passphrase change, new account, import private key + script, derive-from-path} on a chosen account; additionally the address must ENCODE the expected key in the expected format (oracle built with btcutil only), imported key/script returned unchanged, and a second wallet created from the same seed must issue the same addresses"},
 			{Pkg: waddrmgrPkg, Fn: "ZzC03ImportedL3", Tiers: "qt", Reach: []string{"c03b-end", "imported-account", "extended", "restarted", "passphrase-changed"}, Bound: "imported extended-public-key account (child b/i of the imported key) under scope BIP0049Plus with an overriding address schema (nested witness on both branches), histories of 3 operations from {next-external, next-internal, extend-internal, lock, unlock, restart, passphrase change}"},
+			{Pkg: waddrmgrPkg, Fn: "ZzC03ImportedLegacyL2", Tiers: "qt", Reach: []string{"c03b-end", "imported-account"}, Bound: "imported account under scope BIP0084 overriding to p2pkh on both branches (the zero value of the schema type), 2 operations"},
 			{Pkg: waddrmgrPkg, Fn: "ZzC03ImportedTaprootL2", Tiers: "qt", Reach: []string{"c03b-end", "imported-account"}, Bound: "imported account under scope BIP0044 overriding to taproot (external) / witness (internal) addresses, 2 operations"},
 			{Pkg: waddrmgrPkg, Fn: "ZzC03TwoAcctsLockedL3", Tiers: "qt", Reach: []string{"c03b-end", "unlocked-after-issuing-while-locked", "privkey-checked", "restarted"}, Bound: "two seeded accounts, manager LOCKED at the start: histories of 3 operations from {next-external(1..2), next-internal, lock, unlock, restart} on a chosen account (addresses of both accounts issued while locked get their keys at the next Unlock)"},
 			{Pkg: waddrmgrPkg, Fn: "ZzC03TwoAcctsLockedL4", Tiers: "t", Reach: []string{"c03b-end", "unlocked-after-issuing-while-locked"}, Bound: "same, 4 operations"},
@@ -246,6 +254,8 @@ func init() {
 			{Pkg: waddrmgrPkg, Fn: "ZzC05LockWatchOnlyAccount", Tiers: "qt", Reach: []string{"c05-end", "watch-only-account-loaded"}, Bound: "seeded manager holding an imported extended-public-key account with an issued address, then Lock"},
 			{Pkg: waddrmgrPkg, Fn: "ZzC05LockUntouchedScope", Tiers: "qt", Reach: []string{"c05-end", "imports-into-untouched-scope"}, Bound: "restart, unlock, private key and secret script imported into a key scope in which no account has been loaded in this session, then Lock"},
 			{Pkg: waddrmgrPkg, Fn: "ZzC05LockInvalidated", Tiers: "qt", Reach: []string{"c05-end", "account-cache-invalidated"}, Bound: "cached derivation, then the account dropped from the account cache (InvalidateAccountCache), then Lock"},
+			{Pkg: waddrmgrPkg, Fn: "ZzC05LockedHistoryL2", Tiers: "qt", Reach: []string{"c05-end", "issued-while-locked", "renamed-while-locked", "restarted"}, Bound: "locked manager (locked in this session or restarted): 2 operations from {issue external/internal address, rename account, account lookup, drop account from cache}, then Unlock with the current passphrase, private keys of the addresses issued while locked, wrong passphrase, wipe"},
+			{Pkg: waddrmgrPkg, Fn: "ZzC05LockedHistoryL3", Tiers: "t", Reach: []string{"c05-end", "issued-while-locked", "renamed-while-locked"}, Bound: "the same with 3 operations"},
 			{Pkg: waddrmgrPkg, Fn: "ZzC05LongPassphrase", Tiers: "qt", Reach: []string{"c05-end", "guess-while-unlocked"}, Bound: "a 110-byte private passphrase; Unlock from locked and while already unlocked with a guess differing in one byte (symbolic non-zero mask) at position 0, 31, 32, 63, 64, 95, 96, 97 or 109"},
 			{Pkg: waddrmgrPkg, Fn: "ZzC05FailedUnlock", Tiers: "qt", Reach: []string{"c05-end"}, Bound: "Unlock with the right passphrase failing after the master and crypto keys were decrypted (damaged account key): locked and wiped afterwards"},
 			{Pkg: waddrmgrPkg, Fn: "ZzC05GuessWatchOnlyAccount", Tiers: "qt", Reach: []string{"c05-end", "right-passphrase", "wrong-passphrase", "watch-only-account-loaded"}, Bound: "symbolic 8-byte passphrase guess on a manager holding an imported watch-only account"},
@@ -267,6 +277,7 @@ func init() {
 			{Pkg: waddrmgrPkg, Fn: "ZzC08Batch1", Tiers: "qt", Reach: []string{"c08-end", "batch-committed", "batch-agrees"}, Bound: "the same after one committed operation"},
 			{Pkg: walletPkg, Fn: "ZzC08WalletDryRun", Tiers: "qt", Reach: []string{"c08w-end", "dry-run-with-change", "dry-run-without-change"}, Bound: "wallet level: one dry-run txToOutputs on a funded watching-only wallet with a SYMBOLIC amount around the point where the change becomes dust: indices unchanged in memory and on disk, the next committed NewChangeAddress returns the address a restarted wallet would issue"},
 			{Pkg: walletPkg, Fn: "ZzC08WalletDryRun2", Tiers: "t", Reach: []string{"c08w-end", "dry-run-without-change"}, Bound: "two dry runs in a row"},
+			{Pkg: walletPkg, Fn: "ZzC08WalletImportDryRun", Tiers: "qt", Reach: []string{"c08w-end", "dry-run-ok", "dry-run-failed"}, Bound: "ImportAccountDryRun that succeeds or fails after the account was cached, then a committed ImportAccount of another key reusing the account number: running vs reopened wallet (name, key, key counts, next address)"},
 			{Pkg: waddrmgrPkg, Fn: "ZzC08L3", Tiers: "t", Reach: []string{"c08-end", "rolled-back", "commit-failed"}, Bound: "histories of 3 transactions"},
 		},
 		Assume:  mgrAssume,
@@ -301,6 +312,9 @@ func init() {
 			{Pkg: walletPkg, Fn: "ZzC15StartupRecovery1", Tiers: "qt", Reach: []string{"c15-end", "wallet-tx-orphaned", "new-branch-longer"}, Bound: "wallet started in recovery mode (window 1) after a reorg of depth 1 while stopped, new branch 0..2 blocks longer than the old one, wallet tx in any of 3 blocks"},
 			{Pkg: walletPkg, Fn: "ZzC15StartupRecovery2", Tiers: "t", Reach: []string{"c15-end", "wallet-tx-orphaned", "new-branch-longer"}, Bound: "the same at depth 2"},
 			{Pkg: walletPkg, Fn: "ZzC15Startup3", Tiers: "qt", Reach: []string{"c15-end", "wallet-tx-orphaned", "birthday-block-orphaned"}, Bound: "depth 3 while stopped"},
+			{Pkg: walletPkg, Fn: "ZzC15TxBelowTipL1", Tiers: "qt", Sched: true, Reach: []string{"c15-end", "reorg-2", "reorg-started-during-rescan", "wallet-tx-unconfirmed-by-reorg"}, Bound: "a wallet transaction confirmed one block below the tip (connect with tx, connect), then any 1 evolution"},
+			{Pkg: walletPkg, Fn: "ZzC15RescanFinishedThenReorg", Tiers: "qt", Sched: true, Reach: []string{"c15-end", "wallet-tx-unconfirmed-by-reorg"}, Bound: "initial rescan running through the real rescan batch/RPC/progress goroutines; RescanFinished followed at once or after a pause by a depth-1 reorg of the block holding the wallet transaction; every interleaving without preemptive switches (switches at blocking points are free)"},
+			{Pkg: walletPkg, Fn: "ZzC15RescanFinishedThenReorgP1", Tiers: "t", Sched: true, Reach: []string{"c15-end"}, Bound: "the same with at most one preemptive switch (55 608 interleavings)"},
 			{Pkg: walletPkg, Fn: "ZzC15L3", Tiers: "t", Sched: true, Reach: []string{"c15-end"}, Bound: "3 evolutions, base 10001"},
 			{Pkg: walletPkg, Fn: "ZzC15L3Low", Tiers: "t", Sched: true, Reach: []string{"c15-end"}, Bound: "3 evolutions, base height 1"},
 			{Pkg: walletPkg, Fn: "ZzC15L4", Tiers: "t", Sched: true, Reach: []string{"c15-end"}, Bound: "4 evolutions"},
@@ -315,6 +329,8 @@ func init() {
 			{Pkg: walletPkg, Fn: "ZzC20PublishChained", Tiers: "qt", Reach: []string{"c20-end", "chained", "failed"}, Bound: "same with an earlier unconfirmed send whose change is spent"},
 			{Pkg: walletPkg, Fn: "ZzC20Resend", Tiers: "qt", Reach: []string{"c20-end", "resent", "resend-rejected"}, Bound: "unconfirmed parent and child; resendUnminedTxs with acceptance or rejection of the parent; after acceptance a second resynchronisation offers both again"},
 			{Pkg: walletPkg, Fn: "ZzC20ResendMany", Tiers: "qt", Reach: []string{"c20-end", "some-rejected", "classified-rejection"}, Bound: "three unconfirmed transactions (parent, child, independent one); on rebroadcast each is accepted or rejected independently, the reject code symbolic over every reason the chain package knows"},
+		{Pkg: walletPkg, Fn: "ZzC20ResyncPipeline", Tiers: "qt", Sched: true, Reach: []string{"c20-end"}, Bound: "an accepted unconfirmed send, then two resynchronisations through the real rescan batch/RPC/progress goroutines, each finishing at the same tip; every interleaving without preemptive switches"},
+		{Pkg: walletPkg, Fn: "ZzC20ResyncPipelineP1", Tiers: "t", Sched: true, Reach: []string{"c20-end"}, Bound: "three resynchronisations, at most one preemptive switch (29 952 interleavings)"},
 		{Pkg: walletPkg, Fn: "ZzC20ResendIncoming", Tiers: "qt", Reach: []string{"c20-end", "resent", "some-rejected", "classified-rejection"}, Bound: "four unconfirmed wallet transactions: an incoming payment R (no wallet inputs), C spending R's output, a send X whose payment goes to a stranger, S spending that stranger's output back to the wallet (linked to X only through a non-credit output); on rebroadcast R and X are accepted or rejected independently (symbolic reject code)"},
 		},
 		Assume:  append([]string{"transactions are built by the harness (unsigned): publishing does not verify signatures"}, walletAssume...),
@@ -359,8 +375,9 @@ func init() {
 		Runs: []hrun{
 			{Pkg: bdbPkg, Fn: "ZzC11T2O1", Tiers: "qt", Sched: true, Witnesses: 12, Reach: []string{"c11-end", "committed", "aborted", "panicked", "empty-value", "view-failed", "view-panicked", "top-level-deleted"}, Bound: "2 managed updates (committed, failed or panicking) of 1 operation each from {put top/nested, delete, delete nested bucket, sequence, incompatible put/create, create / look up + delete + look up a second top-level bucket} over keys a,b,c with symbolic 2-byte, empty or nil values; full read-back (cursor both ways, Get, Seek, nested bucket, read-only writes) after each; finally a View that succeeds, fails or panics, then close (which waits for open transactions) and reopen"},
 			{Pkg: bdbPkg, Fn: "ZzC11T1O2", Tiers: "qt", Sched: true, Witnesses: 12, Reach: []string{"c11-end", "committed", "aborted", "panicked"}, Bound: "1 update of 2 operations"},
-			{Pkg: bdbPkg, Fn: "ZzC11T2O2", Tiers: "t", Sched: true, Witnesses: 24, Reach: []string{"c11-end"}, Bound: "2 updates of 2 operations"},
-			{Pkg: bdbPkg, Fn: "ZzC11T3O1", Tiers: "t", Sched: true, Witnesses: 24, Reach: []string{"c11-end"}, Bound: "3 updates of 1 operation"},
+			{Pkg: bdbPkg, Fn: "ZzC11Batch", Tiers: "qt", NoNative: true, Reach: []string{"c11-end", "coalesced", "function-run-again"}, Bound: "walletdb.Batch of one put (symbolic value) coalesced by the bbolt model with no, a succeeding or a failing function of another caller, before or after it; own function succeeds or fails (model of bbolt batch.run: shared update, failing member taken out, others run again)"},
+			{Pkg: bdbPkg, Fn: "ZzC11T2O2", Tiers: "t", Sched: true, Witnesses: 24, Reach: []string{"c11-end"}, Bound: "2 updates of 2 operations over keys a,b (no final read-only transaction variants): 944 784 paths"},
+			{Pkg: bdbPkg, Fn: "ZzC11T3O1", Tiers: "t", Sched: true, Witnesses: 24, Reach: []string{"c11-end"}, Bound: "3 updates of 1 operation over keys a,b,c (no final read-only transaction variants)"},
 		},
 		Assume: []string{
 			"what is decided is the ADAPTER (walletdb.Update/View, bdb.(*db).Update/View/Begin*, transaction, bucket, cursor, convertErr) over 'mbolt', a model of bbolt's documented API contract installed with verifrt.StubFunc; bbolt's own atomicity, ordering and durability (mmap, file format, fsync) cannot be encoded and are outside",
